@@ -165,6 +165,9 @@ func (e *Exec) globalVar(o *types.Var) string {
 	if o.Pkg().Path() == "os" && o.Name() == "ErrNotExist" {
 		return "osErrNotExist"
 	}
+	if o.Pkg().Path() == "io" && o.Name() == "EOF" {
+		return "ioEOF"
+	}
 	name := "g_" + sanitize(o.Pkg().Name()+"_"+o.Name())
 	e.global(name, fmt.Sprintf("(declare-const %s %s)", name, sortOf(o.Type())))
 	if isErrorType(o.Type()) {
